@@ -281,7 +281,8 @@ fn c16_payload_with_filter() {
 #[kani::proof]
 #[kani::unwind(34)]
 #[kani::stub(alloc::fmt::format, stub_format)]
-fn c16_t_paging_two_pages() {
+#[kani::stub(<std::net::Ipv4Addr as std::fmt::Display>::fmt, stub_ipv4_fmt)]
+fn c16_paging_two_pages() {
     let master = SocketAddr::new(IpAddr::V4(Ipv4Addr::new(208, 64, 201, 194)), 27011);
     let (p1, p3): (u16, u16) = (27016, 2303);
     let mut page1 = Enc::new();
@@ -320,7 +321,8 @@ fn c16_t_paging_two_pages() {
 #[kani::proof]
 #[kani::unwind(34)]
 #[kani::stub(alloc::fmt::format, stub_format)]
-fn c16_t_paging_same_host_last_entries() {
+#[kani::stub(<std::net::Ipv4Addr as std::fmt::Display>::fmt, stub_ipv4_fmt)]
+fn c16_paging_same_host_last_entries() {
     let master = SocketAddr::new(IpAddr::V4(Ipv4Addr::new(208, 64, 201, 194)), 27011);
     let mut page1 = Enc::new();
     page1.le32(0xFFFF_FFFF).u8(0x66).u8(0x0A);
@@ -358,7 +360,8 @@ fn c16_t_paging_same_host_last_entries() {
 #[kani::proof]
 #[kani::unwind(34)]
 #[kani::stub(alloc::fmt::format, stub_format)]
-fn c16_t_paging_no_progress_stops() {
+#[kani::stub(<std::net::Ipv4Addr as std::fmt::Display>::fmt, stub_ipv4_fmt)]
+fn c16_paging_no_progress_stops() {
     let master = SocketAddr::new(IpAddr::V4(Ipv4Addr::new(208, 64, 201, 194)), 27011);
     let mut page1 = Enc::new();
     page1.le32(0xFFFF_FFFF).u8(0x66).u8(0x0A);
@@ -380,6 +383,7 @@ fn c16_t_paging_no_progress_stops() {
 #[kani::proof]
 #[kani::unwind(34)]
 #[kani::stub(alloc::fmt::format, stub_format)]
+#[kani::stub(<std::net::Ipv4Addr as std::fmt::Display>::fmt, stub_ipv4_fmt)]
 fn c16_paging_empty() {
     let master = SocketAddr::new(IpAddr::V4(Ipv4Addr::new(208, 64, 201, 194)), 27011);
     let mut page = Enc::new();
@@ -401,6 +405,7 @@ fn c16_paging_empty() {
 #[kani::proof]
 #[kani::unwind(34)]
 #[kani::stub(alloc::fmt::format, stub_format)]
+#[kani::stub(<std::net::Ipv4Addr as std::fmt::Display>::fmt, stub_ipv4_fmt)]
 fn c16_paging_one_page() {
     let master = SocketAddr::new(IpAddr::V4(Ipv4Addr::new(208, 64, 201, 194)), 27011);
     let mut page = Enc::new();
